@@ -1,4 +1,5 @@
-import Lean.Data.Json
+import InToto.Driver.Util
+import InToto.Driver.Rules
 import InToto.Model.Glob
 import InToto.Spec.Glob
 
@@ -6,45 +7,29 @@ open Lean
 
 namespace Drv
 
-def strBytes (s : String) : List UInt8 := s.toUTF8.toList
-
-def getStr (j : Json) (k : String) : String :=
-  match j.getObjValAs? String k with
-  | .ok s => s
-  | .error _ => ""
-
-def getBool (j : Json) (k : String) : Bool :=
-  match j.getObjValAs? Bool k with
-  | .ok s => s
-  | .error _ => false
-
-def optBool : Option Bool → Json
-  | none => Json.str "bad"
-  | some b => Json.bool b
-
-def getArr (j : Json) (k : String) : Array Json :=
-  match j.getObjVal? k with
-  | .ok (Json.arr a) => a
-  | _ => #[]
-
-def getStrs (j : Json) (k : String) : List String :=
-  (getArr j k).toList.map fun x => match x with | Json.str s => s | _ => ""
-
-def handle (j : Json) : Json :=
-  let op := getStr j "op"
-  let a := (j.getObjVal? "args").toOption.getD Json.null
-  let quirks := getStrs j "quirks"
-  let q (s : String) : Bool := quirks.contains s
+def handleGlob (op : String) (a : Json) (q : String → Bool) : Option Json :=
   match op with
   | "glob" =>
     let p := strBytes (getStr a "pattern")
     let bw := q "glob_bytewise_star"
     let names := getStrs a "names"
     let pc := (getStr a "pattern").toList.map Char.toNat
-    Json.mkObj [
+    some (Json.mkObj [
       ("model", Json.arr (names.map fun n => Json.bool (InToto.Glob.filterHas bw p (strBytes n))).toArray),
-      ("spec", Json.arr (names.map fun n => Json.bool (InToto.GlobSpec.specMatch pc (n.toList.map Char.toNat))).toArray)]
-  | _ => Json.mkObj [("error", Json.str ("unknown op " ++ op))]
+      ("spec", Json.arr (names.map fun n => Json.bool (InToto.GlobSpec.specMatch pc (n.toList.map Char.toNat))).toArray)])
+  | _ => none
+
+def handle (j : Json) : Json :=
+  let op := getStr j "op"
+  let a := fld j "args"
+  let quirks := getStrs j "quirks"
+  let q (s : String) : Bool := quirks.contains s
+  match handleGlob op a q with
+  | some r => r
+  | none =>
+  match handleRules op a with
+  | some r => r
+  | none => Json.mkObj [("error", Json.str ("unknown op " ++ op))]
 
 partial def loop (hin hout : IO.FS.Stream) : IO Unit := do
   let line ← hin.getLine
